@@ -508,6 +508,20 @@ class FakeGSocket(object):
       net.send_cont.append((seq2, CLOCK.now, conn.id, seq))
       conn.client_sent(data[n:])
       return len(data)
+    if kind == 'stall':
+      # the peer stops reading and answering: part of the data goes out, the
+      # writer stays parked (until the socket is closed under it)
+      n = len(data) // 2
+      if n:
+        conn.client_sent(data[:n])
+      conn.go_silent()
+      conn.writes_in_progress = getattr(conn, 'writes_in_progress', 0) + 1
+      try:
+        self._sleep(float(d.arg or 400.0))
+      finally:
+        conn.writes_in_progress -= 1
+      self._check_open()
+      raise _err(errno.EPIPE)
     if kind == 'silence':
       conn.go_silent()
       return len(data)
